@@ -579,6 +579,30 @@ fn run_info<'a>(case: &'a Case, ctx: &mut Ctx<'_>, mk: &dyn Fn(&'a [u8]) -> FR<'
                             ctx.violate("c20_cursor", format!("cursor at offset {}: {}", at.0, first_diff(&s1, &s2)));
                             return;
                         }
+                        // sibling stepping from here: the cursor that walked to this entry and the
+                        // one positioned at its offset must visit the same siblings (clones, so
+                        // the history itself is not disturbed)
+                        if matches!(r1, Ok(true)) && step[0] % 3 != 2 {
+                            let (mut a, mut b) = (used.clone(), fresh.clone());
+                            for k in 0..48 {
+                                let f = |r: gimli::Result<Option<&DebuggingInformationEntry<FR<'a>>>>| match r {
+                                    Ok(Some(e)) => format!("sibling off={} tag={:?}", e.offset().0, e.tag()),
+                                    Ok(None) => "none".to_string(),
+                                    Err(e) => format!("err {}", crate::ctx::err_name(&e)),
+                                };
+                                let (ra, rb) = (f(a.next_sibling()), f(b.next_sibling()));
+                                if ra != rb {
+                                    ctx.violate(
+                                        "c20_cursor",
+                                        format!("next_sibling #{} from the entry at {}: the cursor that walked there gives `{}`, the one positioned there gives `{}`", k, at.0, ra, rb),
+                                    );
+                                    return;
+                                }
+                                if !ra.starts_with("sibling") {
+                                    break;
+                                }
+                            }
+                        }
                     }
                     if r1.is_err() {
                         ctx.probe("reuse_step_failed");
